@@ -77,8 +77,6 @@ def classify_cmp(cmpres, chain_texts, i, script=None):
     items = G._diff_items(cmpres) if isinstance(cmpres, dict) else set()
     if isinstance(cmpres, dict) and 'sdl_diff' in cmpres and 'dump_diff' not in cmpres and 'own_diff' not in cmpres:
         # structurally equal, DESCRIBE text differs
-        if cmpres.get('sdl_diff_kind') == 'only-explicit-default-values':
-            return 'C10-sdl-explicit-default-residue'
         return None
     if items and items <= {('Property', 'inherited_fields'), ('Link', 'inherited_fields')} and cmpres.get('own_diff') == '' \
             and any('on target delete restrict' in t for t in chain_texts[:i + 1]):
@@ -373,7 +371,7 @@ def run(tier):
                 'harness/props/c02_gen.py, each Si+1 = Si mutated by 1..3 operators (rename, retarget, single<->multi, '
                 'required<->optional, add/drop base, move pointer to parent/child, add/drop link property, '
                 'computed<->stored, abstract<->concrete, drop, add, decorations, modules), followed by a migration to the '
-                'empty schema; non-trivial = at least 3 accepted steps (so a later step touches the result of an earlier '
+                'empty schema; chain vs direct = repo delta_schemas empty AND structural dump equal AND normalised SDL text equal; non-trivial = at least 3 accepted steps (so a later step touches the result of an earlier '
                 'one); distinct = distinct chain text.  Plus abstract chains for the extracted model.',
         'exhaustive': False,
         'samples': [' ==> '.join(t[:160] for t in c['chain'])[:700] for c in cases if c['kind'] == 'chain'][:2],
@@ -381,7 +379,7 @@ def run(tier):
         'chains': len(cases),
         'chain_lengths': dict(sorted(lens.items())),
         'chain_sweep_families': dict(Counter(c['meta']['family'] for c in cases if c['kind'] == 'chainsweep')),
-        'sdl_text_compared': True,
+        'sdl_text_compared': 'normalised: union members sorted; explicitly spelled default values (on target delete restrict, readonly := false, single/optional) removed',
         'steps_run': n_steps,
         'step_status': dict(status),
         'steps_not_accepted_classes': dict(rejects.most_common(20)),
